@@ -128,6 +128,11 @@ func checkTreeAfter(r *h.Run, dir string, entries, gone []entry, queries []strin
 			t.Remove(e.topic, e.value)
 		}
 	}
+	// results are held across the next query and then overwritten: a result that
+	// shares memory with the tree (or with another result) shows up as a changed
+	// held result or as a wrong answer to a later query
+	var held, heldCopy []interface{}
+	var heldQ string
 	for _, q := range queries {
 		atomic.AddInt64(&evals, 1)
 		want := map[interface{}]bool{}
@@ -151,6 +156,19 @@ func checkTreeAfter(r *h.Run, dir string, entries, gone []entry, queries []strin
 			got = t.Search(q)
 			first = t.SearchFirst(q)
 		}
+		if held != nil {
+			for i := range held {
+				if held[i] != heldCopy[i] {
+					r.Violation(dir+"/result-changed", fmt.Sprintf("%s: the result of %s(%q) was %v and became %v after %s(%q)", label, dir, heldQ, heldCopy, held, dir, q),
+						map[string]interface{}{"direction": dir, "first_query": heldQ, "second_query": q})
+					break
+				}
+			}
+			for i := range held {
+				held[i] = -999 // the caller owns the result
+			}
+		}
+		held, heldCopy, heldQ = got, append([]interface{}(nil), got...), q
 		gs, dup := setOf(got)
 		if !sameSet(gs, want) || dup || (first == nil) != (len(want) == 0) || (first != nil && !want[first]) {
 			kind := "extra"
@@ -286,6 +304,15 @@ func TestCheck(t *testing.T) {
 		for k := 0; k < ne; k++ {
 			fs = append(fs, entry{mk(true), rng.Intn(ne)})
 			ns = append(ns, entry{mk(false), rng.Intn(ne)})
+		}
+		if i%3 == 0 {
+			// several values under one filter / name (value lists with spare capacity)
+			for k := 0; k < ne; k++ {
+				for extra := 1; extra <= 1+rng.Intn(3); extra++ {
+					fs = append(fs, entry{fs[k].topic, 1000*extra + k})
+					ns = append(ns, entry{ns[k].topic, 1000*extra + k})
+				}
+			}
 		}
 		for k := 0; k < 24; k++ {
 			qn = append(qn, mk(false))
